@@ -27,7 +27,7 @@ type caseC11 struct {
 
 func genC11(t *rapid.T, _ *evid.Rec) caseC11 {
 	c := caseC11{Env: gen.Env(t, 0)}
-	c.Doc = gen.StyledDoc(t, gen.Opts{MaxRecords: 5, NearDay: c.Env.NowDay, NearSpan: 4, MaxEntries: 3})
+	c.Doc = gen.StyledDoc(t, gen.Opts{MaxRecords: 5, AllowMany: true, NearDay: c.Env.NowDay, NearSpan: 4, MaxEntries: 3, TabSeparators: true})
 	if rapid.IntRange(0, 2).Draw(t, "ensureOpen") == 0 {
 		gen.EnsureOpenRange(t, &c.Doc, c.Env)
 		// keep the dates unique
@@ -38,6 +38,11 @@ func genC11(t *rapid.T, _ *evid.Rec) caseC11 {
 			}
 			seen[c.Doc.Records[i].Date.Days()] = true
 		}
+	}
+	if len(c.Doc.Records) >= 2 && rapid.IntRange(0, 3).Draw(t, "duplicateDate") == 0 {
+		// two records share a date (the first one is the target of commands at that date)
+		i := rapid.IntRange(0, len(c.Doc.Records)-2).Draw(t, "dupI")
+		c.Doc.Records[i+1].Date.Y, c.Doc.Records[i+1].Date.M, c.Doc.Records[i+1].Date.D = c.Doc.Records[i].Date.Y, c.Doc.Records[i].Date.M, c.Doc.Records[i].Date.D
 	}
 	c.Layout = gen.Layout(t, len(c.Doc.Records))
 	// styles per record: make per-record indentation and endings likely
@@ -219,6 +224,18 @@ func checkC11(c caseC11) (Outcome, error) {
 			if i >= len(c.Doc.Records) || docDay(records[i]) != c.Doc.Records[i].Date.Days() {
 				newIndex = i
 				break
+			}
+		}
+		if newIndex < 0 {
+			// `create` at a date that already has a record: the new record is one of several equal
+			// dates; which one cannot be told from the dates alone
+			out.Label("new-record-among-equal-dates")
+			return out, nil
+		}
+		for _, r := range c.Doc.Records {
+			if r.Date.Days() == docDay(records[newIndex]) {
+				out.Label("new-record-among-equal-dates")
+				return out, nil
 			}
 		}
 	} else if len(records) == len(c.Doc.Records) {
